@@ -91,10 +91,15 @@ POLICIES = ["set", "sine", "append", "add", "min", "max", "set_sum"]
 def _mc_store(run, kind):
     """Design-level exhaustive TLC runs of MCStore for every update policy, in parallel."""
     from concurrent.futures import ThreadPoolExecutor
-    cfgs = ["MCStore_%s_%s.cfg" % (p, kind) for p in POLICIES]
-    w = 4 if run.tier == "quick" else 8
-    with ThreadPoolExecutor(max_workers=4 if run.tier == "quick" else 2) as ex:
-        list(ex.map(lambda c: run.model_check("MCStore", c, workers=w, timeout=3000), cfgs))
+    # exhaustive: 2 blocks x 2 operations per block (178k distinct states for set_sum); 3 blocks do not finish (measured: > 10^7
+    # states), so the thorough tier adds RANDOM SIMULATION of the 4-block / 3-operation configuration for a fixed time budget
+    ex_kind = "quick" if kind == "thorough" else kind
+    cfgs = ["MCStore_%s_%s.cfg" % (p, ex_kind) for p in POLICIES]
+    with ThreadPoolExecutor(max_workers=4) as ex:
+        list(ex.map(lambda c: run.model_check("MCStore", c, workers=4, timeout=3000), cfgs))
+    if kind == "thorough":
+        with ThreadPoolExecutor(max_workers=4) as ex:
+            list(ex.map(lambda p: run.simulate("MCStore", "MCStore_%s_thorough.cfg" % p, seconds=150, depth=24, workers=4), POLICIES))
 
 
 def _store_trace(run, prefix, extra=()):
